@@ -183,8 +183,23 @@ def r17d(ctx):
     ctx.check(rule, fn, bool(npf) and U(npf[0].value) == "term.prefactor", "numeric prefactor of the term", "prefactor source changed",
               key="pref source")
     sy = [a for a in common.assigns_to(fn, "symbol_pref")]
-    ok = len(sy) == 1 and U(sy[0].value) == "' * '.join([obj.name for obj in term.objects if isinstance(obj.base, Symbol) for _ in range(obj.exponent)])"
+    ok = False
+    elt = None
+    if len(sy) == 1 and isinstance(sy[0].value, ast.Call) and call_name(sy[0].value) == "join" and sy[0].value.args \
+            and isinstance(sy[0].value.args[0], (ast.ListComp, ast.GeneratorExp)):
+        comp = sy[0].value.args[0]
+        gens = comp.generators
+        elt = U(comp.elt)
+        ok = len(gens) == 2 and U(gens[0].iter) == "term.objects" and [U(i) for i in gens[0].ifs] == ["isinstance(obj.base, Symbol)"] \
+            and U(gens[1].iter) == "range(obj.exponent)" and U(sy[0].value.func.value) == "' * '"
     ctx.check(rule, fn, ok, "symbols printed exponent-many times", "symbolic prefactor changed", key="symbols")
+    # Obj.name is defined for tensors only (None otherwise): under the Symbol guard it is None and join() fails
+    nm = ctx.model.fn("expr_container:Obj.name")
+    tensor_only = [U(n.test) for n in walk_fn(nm) if isinstance(n, ast.If)] == ["isinstance(self.base, SymbolicTensor)"] \
+        and len(common.returns_of(nm)) == 1
+    ctx.check(rule, fn, not (elt == "obj.name" and tensor_only), "symbol printed by the symbol's own name",
+              "symbolic prefactors are printed with `obj.name`, which Obj.name defines for tensors only (None for a Symbol): "
+              "' * '.join([None]) raises TypeError for every expression with a symbolic prefactor", key="symbol name source")
     rets = {("sym" if ("symbol_pref", True) in conditions(r) else "nosym"): U(r.value) for r in common.returns_of(fn)}
     ctx.check(rule, fn, rets == {"sym": "f'{sign} {number_pref} * {symbol_pref}'", "nosym": "f'{sign} {number_pref}'"},
               "sign, number, symbols", f"returns {rets}", key="returns")
